@@ -181,8 +181,8 @@ def main():
         broken.append(("correspondence", "model extraction", msgm[-600:]))
     builds = []
     for b in P.get("builds", ["debug", "release"]):
-        prof = "release" if b.startswith("release") else "debug"
-        okb, exe = vlib.harness_build(profile=prof, hooks=True)
+        prof = "release" if "release" in b else "debug"
+        okb, exe = vlib.harness_build(profile=prof, hooks=not b.startswith("plain"))
         if not okb:
             # the repository no longer builds: nothing can be said; report as broken correspondence
             broken.append(("correspondence", f"harness build ({b})", exe[-800:]))
@@ -227,6 +227,11 @@ def main():
             # correspondence with the model
             if model_rows is not None:
                 mres, mtr = model_rows[i]
+                if "release" in bname and vlib.debug_only_panic(mres):
+                    # debug_assert!/overflow checks are compiled out in release builds: what the
+                    # implementation does after such a point is outside the model
+                    stats["skipped_debug_only"] = stats.get("skipped_debug_only", 0) + 1
+                    continue
                 stats["compared_results"] += 1
                 if vlib.canon_res(mres) != cres:
                     mismatches.append((f"result mismatch [{bname}]: impl={res} model={mres}", line))
